@@ -7,5 +7,6 @@ cd "$(dirname "$0")/.."
 export GOFLAGS=-mod=mod GOPROXY=off GOSUMDB=off GOTOOLCHAIN=local
 mkdir -p bin evidence replays
 (cd instr && go1.26.8 build -o ../bin/instr .)
+(cd mutate && go1.26.8 build -o ../bin/mutate .)
 ./check build race
 echo setup ok
